@@ -337,29 +337,33 @@ def build_child(ctx):
     return out
 
 
+AMAX = {True: 4, False: 5}      # quick / thorough: words per argument vector in the exhaustive scope
+SMAX = {True: 8, False: 9}      # symbols per command line in the exhaustive scope
+
+
 def histories_for(ctx):
     rng, quick = ctx.rng, ctx.tier == "quick"
     corpus = C.load_corpus(ctx.prop)
-    ea = exhaustive_args(3 if quick else 4)
+    ea = exhaustive_args(AMAX[quick])
     ra = random_args(rng, 20000 if quick else 300000)
-    es = exhaustive_split(7 if quick else 8)
+    es = exhaustive_split(SMAX[quick])
     es2 = [] if quick else exhaustive_split(6, [b"a", b"b", b" ", b'"', b"\\"])
     rs = random_split(rng, 4000 if quick else 60000)
     rl, il, xl = run_lines(rng, quick), io_lines(rng, quick), exit_lines(rng, quick)
     hs = corpus + chunks(ea, 40) + chunks(ra, 40) + chunks(es + es2, 40) + chunks(rs, 40) + chunks(rl, 8) + chunks(il, 3) + chunks(xl, 8)
     ctx.cov["rule"] = (
-        f"corpus ({len(corpus)}) + args: every argv of <= {3 if quick else 4} words over {len(WORDS)} words "
+        f"corpus ({len(corpus)}) + args: every argv of <= {AMAX[quick]} words over {len(WORDS)} words "
         f"({', '.join(w.decode() for w in WORDS)}) with the option table a/alpha=flag, b=flag without long name, o/out=required value, "
         f"p/opt=optional value ({len(ea)} vectors), each word and option name in an exactly sized heap buffer under ASan, "
         f"+ {len(ra)} random vectors of 0..8 words over random tables (0..6 options, null/empty/prefix/duplicate names, all four flag values, "
-        f"negative and special characters); split: every command line of <= {7 if quick else 8} symbols over w, blank, quote, backslash "
+        f"negative and special characters); split: every command line of <= {SMAX[quick]} symbols over w, blank, quote, backslash "
         f"({len(es)}){'' if quick else f' and <= 6 symbols over a, b, blank, quote, backslash ({len(es2)})'} + {len(rs)} random lines, 20 s watchdog; "
         f"run: {len(rl)} launches of the helper child through every start/open form x redirection mask x environment (empty=inherit, 1..3 variables) "
         f"with argv/environment echoed back; io: redirection masks 0..7 x payload sizes {SIZES} ({len(il)} runs, stdin payload written and "
         f"stdout/stderr read to end-of-file, CRC-32 compared); exit: {len(xl)} exit codes through start(command)+join. "
         "distinct_nontrivial = distinct observation lines with >= 2 results / >= 2 words / a child run")
     ctx.cov["exhaustive"] = True
-    ctx.cov["exhaustive_scope"] = (f"argv words<={3 if quick else 4} over {len(WORDS)}-word alphabet: {len(ea)}; command lines <= {7 if quick else 8} "
+    ctx.cov["exhaustive_scope"] = (f"argv words<={AMAX[quick]} over {len(WORDS)}-word alphabet: {len(ea)}; command lines <= {SMAX[quick]} "
                                    f"symbols over 4: {len(es)}; redirection masks 8 x sizes {len(SIZES)}; exit codes: {len(xl)}")
     return hs
 
